@@ -326,6 +326,21 @@ def rule_e(ctx):
            f'a rejected write leaves the old child detached', None if bad is None else bad[2])
 
 
+def _iterates_all_items(m, it):
+  """The iterable is self.sym_items()/sym_values() (possibly wrapped in
+  list/tuple/enumerate/reversed), or a local every definition of which is."""
+  t = A.unparse(it, 300)
+  if 'sym_items' in t or 'sym_values' in t:
+    return True
+  if isinstance(it, ast.Call) and (A.call_name(it) or '') in ('list', 'tuple', 'enumerate', 'reversed') and it.args:
+    return _iterates_all_items(m, it.args[0])
+  if isinstance(it, ast.Name):
+    defs = [v for _, v in D.defs_of(m.node, it.id)]
+    return bool(defs) and all(v is not None and not (isinstance(v, ast.Name) and v.id == it.id)
+                              and _iterates_all_items(m, v) for v in defs)
+  return False
+
+
 def rule_f(ctx):
   idx = ctx.index
   for cls_fq in (S.LIST, S.DICT):
@@ -505,7 +520,7 @@ def rule_f(ctx):
               problems.append(f'propagation conditioned on `{t}`')
             if m.name == '_on_change' and 'sym_path.key' in t and 'TopologyAware' in t and 'and' in t:
               pass
-        if 'sym_items' not in A.unparse(lp.iter) and 'sym_values' not in A.unparse(lp.iter):
+        if not _iterates_all_items(m, lp.iter):
           problems.append(f'iterates `{A.unparse(lp.iter)}` instead of the symbolic items')
         ctx.ob('C01.f', f'{m.fq}#loop@{A.unparse(lp.target)}', not problems,
                'a loop that propagates path/parent to children visits every '
